@@ -26,7 +26,7 @@ CASES = [
     (('S', 'S', 'S'), 'HHE', 'HHEHHEHHE', 'same'), (('P', 'S'), 'E', 'EEEEEEEE', 'same'), (('P', 'S'), 'HHHHHCCC', 'CCCCCHHH', 'different'),
     (('S', 'P'), 'HHHCCCCC', 'CCCHHHHH', 'different'),
     (('P',), 'HHHH', None, 'refused'), (('P',), 'HHHHHH', None, 'refused'), (('P', 'S'), 'HHHEE', None, 'refused'),
-    (('P', 'S'), 'HHE', None, 'refused'), (('P', 'P'), 'HHHHHHHHH', None, 'refused'),
+    (('P', 'S'), 'HHE', None, 'refused'), (('P', 'P'), 'HHHHHHHHH', None, 'refused'), (('P',), '', None, 'refused'),
 ]
 
 
